@@ -153,6 +153,20 @@ def run(ctx):
             ts = [t for t in gc.ALLT if rng.random() < 0.75] if rng.random() < 0.6 else list(gc.ALLT)
             calls.append(gc.call_group(notes, ts, rng.choice(gc.MODES), rng.random() < 0.8, rng.choice(gc.POL), rng.choice(gc.POL), True, chk=False))
         recs.append({"id": i, "notes": nd, "calls": calls})
+    # many holds open at once, released in every order: one head per column on beats 0..n-1, the tails on a
+    # permutation of the following beats (5-8 columns)
+    import itertools
+    perms = []
+    for ncols in (5, 6, 7, 8):
+        allp = list(itertools.permutations(range(ncols))) if ncols <= 6 else [tuple(rng.sample(range(ncols), ncols)) for _ in range(400)]
+        perms += [(ncols, pm) for pm in (rng.sample(allp, 40 if quick else min(len(allp), 700)))]
+    for ncols, pm in perms:
+        nd = [{"n": i, "d": 1, "c": i, "t": rng.choice([50, 52]), "k": rng.choice([-1, -1, 4])} for i in range(ncols)]
+        nd += [{"n": ncols + pm[i], "d": 1, "c": i, "t": 51, "k": -1} for i in range(ncols)]
+        nd.sort(key=lambda x: (x["n"], x["c"]))
+        notes = [gc.note_of(d) for d in nd]
+        calls = [gc.call_group(notes, gc.ALLT, rng.choice(gc.MODES), True, rng.choice(gc.POL), rng.choice(gc.POL), True, chk=False)]
+        recs.append({"id": len(recs) + 500000, "notes": nd, "calls": calls})
     cs = gc.corpus_streams(150)
     rng.shuffle(cs)
     for j, (label, nd) in enumerate(cs[: (30 if quick else 100000)]):
